@@ -56,6 +56,33 @@ def Op.line : Op → String
   | .iaddScalar v x => s!"iadds {v} {x}"
   | .iaddVector v d => s!"iaddv {v} {d}"
 
+/-- `a = V3iArray([(0,10,20),(1,11,21),(2,12,22),(3,13,23)]); v = a[IntArray([0,1,0,1])]; c = v.x; c[1]; c[1] = 99; a[3].x`
+    (op lines: the component operations are not part of `Op`) -/
+def witnessComponentLines : List String :=
+  ["allocw 3 0,10,20,1,11,21,2,12,22,3,13,23", "alloci 0,1,0,1", "getmask 0 1", "comp 2 0", "getitem 3 1",
+   "setscalar 3 i:1 99", "getitem 0 3", "getitem 0 2"]
+
+/-- the same program on the model functions: (x components seen through `v.x`, whole storage after `v.x[1] = 99`) -/
+def witnessComponent (keepsMask : Bool) : Except Err (List Int × List Int) :=
+  let (h0, a) := allocWide [] 3 [0, 10, 20, 1, 11, 21, 2, 12, 22, 3, 13, 23]
+  let (h1, m) := alloc h0 [0, 1, 0, 1]
+  match getsliceMask h1 a m with
+  | .error e => .error e
+  | .ok v =>
+    match compView keepsMask v 0 with
+    | .error e => .error e
+    | .ok c =>
+      match c.readAll h1 c.length with
+      | .error e => .error e
+      | .ok xs =>
+        match setitemScalar h1 c (.int 1) 99 with
+        | .error e => .error e
+        | .ok h2 => .ok (xs, (h2[0]?).getD [])
+
+/-- `va = VIntArray(2); va.size[1] = 3; va.size[1]; va.size[IntArray([0,1])]` — an int and a list of sizes are intended;
+    as registered `SizeHelper.__getitem__` resolves every key to `getitem_slice (PyObject*)` -/
+def witnessVSizeLines : List String := ["v new 2", "v setsize 0 i:1 3", "v size 0 1", "alloci 0,1", "v sizemask 0 0"]
+
 def witnesses : List (String × List Op) :=
   [("masked-inplace-scalar", witnessSetup ++ witnessMaskedInplaceScalar),
    ("masked-inplace-vector", witnessSetup ++ witnessMaskedInplaceVector),
